@@ -34,6 +34,7 @@ OVERLAP = (frozenset(("Long", "Long2")),)
 INJECT = ("Long\n", "Long2\n", "Other\n", "Fail\n", "Short\n", "Drive1\n", "Long\nLong2\n", "Mark: inj\nLong\n",
           "Long2\nLong\n")
 USER_CMDS = ("Long", "Long2", "Other", "Drive1", "Short")
+UOD_NAMES = ("Short", "Long", "Long2", "Other", "Fail", "Set1", "SetPlain", "Drive1", "Set2", "Mode")
 
 
 def conflicts(a: str, b: str) -> bool:
@@ -54,10 +55,17 @@ def gen_case(rnd: random.Random, max_depth=3):
                allow=("mark", "uod", "wait", "block", "watch", "alarm", "macro", "thr", "pausehold", "blank"),
                thr_values=("0.2", "0.5", "1", "0", "0.3"), allow_stop=rnd.random() < 0.2)
     text = g.program(rnd.randint(3, 9))
+    if rnd.random() < 0.15:
+        # method-issued Stop/Restart anywhere (also inside Watch/Alarm/Block bodies)
+        from opv.rigs.cmd_rig import insert_line
+        t2 = insert_line(text, rnd.randint(1, 12), rnd.choice(["Stop", "Restart"]))
+        text = t2 if t2 is not None else text
     sched = []
+    user_uod = rnd.random() < 0.06     # unjudged stratum, see ASSUMPTIONS
     for _ in range(rnd.choice([0, 1, 2, 2, 3, 4, 6])):
         t = rnd.randint(2, 45)
-        kind = rnd.choice(["inject", "inject", "user", "user", "cancel", "cancel", "stop", "restart", "pause", "hold"])
+        kind = rnd.choice(["inject", "inject", "inject", "user" if user_uod else "inject", "cancel", "cancel", "stop",
+                           "restart", "pause", "hold"])
         if kind == "inject":
             sched.append([t, "inject", rnd.choice(INJECT)])
         elif kind == "user":
@@ -85,9 +93,14 @@ def gen_case(rnd: random.Random, max_depth=3):
 
 def check_case(case, res: Result):
     from opv.rigs import engine_rig as R
+    from opv.rigs import cmd_rig as CR
 
+    CR.install_request_hooks()
+    CR.install_schedule_hook()
+    CR.reset_request_hooks()
+    CR.REQS.clear()
     rig = R.EngineRig(case["text"], long_n=case["long_n"], fail_at=case["fail_at"])
-    viol: list[tuple] = []
+    raw: list[tuple] = []            # (mech, msg, involved instance ids)
     sched = [tuple(s) for s in case["sched"]]
     last_sched = max([s[0] for s in sched], default=0)
     stop_ticks: list[int] = []          # ticks at whose end the state is Stopped after having been something else
@@ -139,6 +152,12 @@ def check_case(case, res: Result):
         end_tick = rig.k
         end_state = rig.state
         leftover = sorted(rig.uod.command_instances)
+        user_iids = set(CR.USER_IIDS)
+        # user-issued requests whose cancellation aborted inside Tracking.mark_cancelled (NullNode is not cancellable)
+        user_cancel_failed = {f[1] for f in CR.CANCEL_MARK_FAILS if f[1] in user_iids and f[2] == "NullNode"}
+        reqs = [q for q in CR.REQS if q[1] in UOD_NAMES]
+        # instances whose cancellation aborted inside Tracking.mark_cancelled (node.cancel() refused) before finalize
+        cancel_aborted = {f[1] for f in CR.CANCEL_MARK_FAILS if f[1] is not None}
     finally:
         rig.close()
 
@@ -155,6 +174,10 @@ def check_case(case, res: Result):
     name_of = {iid: evs[0][2] for iid, evs in per.items()}
     conflict_seen = 0
     failed = 0
+
+    def V(mech, msg, involved):
+        raw.append((mech, msg, tuple(involved)))
+
     # (1) automaton per instance
     for iid in order:
         evs = per[iid]
@@ -162,17 +185,19 @@ def check_case(case, res: Result):
         phases = [e[1] for e in evs]
         nm = name_of[iid]
         if phases[0] != "init":
-            viol.append(("C11.exec_before_init", f"instance {iid[:8]} of {nm}: first callback is {phases[0]} "
-                         f"at tick {evs[0][0]} ({phases[:6]})"))
+            V("C11.exec_before_init", f"instance {iid[:8]} of {nm}: first callback is {phases[0]} "
+              f"at tick {evs[0][0]} ({phases[:6]})", [iid])
         if phases.count("init") > 1:
-            viol.append(("C11.init_twice", f"instance {iid[:8]} of {nm}: {phases.count('init')} init calls"))
+            V("C11.init_twice", f"instance {iid[:8]} of {nm}: {phases.count('init')} init calls at ticks "
+              f"{[e[0] for e in evs if e[1] == 'init']}", [iid])
         if phases.count("fin") > 1:
-            viol.append(("C11.finalize_twice", f"instance {iid[:8]} of {nm}: {phases.count('fin')} finalize calls at ticks "
-                         f"{[e[0] for e in evs if e[1] == 'fin']}"))
+            V("C11.finalize_twice", f"instance {iid[:8]} of {nm}: {phases.count('fin')} finalize calls at ticks "
+              f"{[e[0] for e in evs if e[1] == 'fin']}", [iid])
         if "fin" in phases and phases.index("fin") != len(phases) - 1:
             after = phases[phases.index("fin") + 1:]
             if "exec" in after or "init" in after:
-                viol.append(("C11.callback_after_finalize", f"instance {iid[:8]} of {nm}: {after} after finalize"))
+                V("C11.callback_after_finalize", f"instance {iid[:8]} of {nm}: {after[:6]} after finalize "
+                  f"(tick {evs[phases.index('fin')][0]})", [iid])
         res.count("exec_events", phases.count("exec"))
         if nm == "Fail" and any(e[1] == "exec" and e[4] >= case["fail_at"] for e in evs):
             failed += 1
@@ -189,22 +214,21 @@ def check_case(case, res: Result):
             cur_tick = tick
             alive_at_tick_start[tick] = set(alive)
         if phase == "init":
-            olders = [o for o, onm in alive.items() if o != iid and conflicts(onm, nm)]
-            if olders:
-                conflict_seen += 1      # judged at the first exec below
+            if any(o != iid and conflicts(onm, nm) for o, onm in alive.items()):
+                conflict_seen += 1      # judged at the exec below
             alive[iid] = nm
         elif phase == "exec":
             for o, onm in alive.items():
                 if o != iid and conflicts(onm, nm):
-                    viol.append((_classify_overlap(per, o, iid),
-                                 f"instance {iid[:8]} of {nm} executes at tick {tick} while instance {o[:8]} of {onm} "
-                                 f"(init tick {per[o][0][0]}) is still alive - the older one was not cancelled first"))
+                    V("C11.older_conflicting_instance_not_cancelled",
+                      f"instance {iid[:8]} of {nm} executes at tick {tick} while instance {o[:8]} of {onm} "
+                      f"(init tick {per[o][0][0]}) is still alive - the older one was not cancelled and finalized first",
+                      [iid, o])
             lst = exec_in_tick.setdefault(tick, [])
             if iid not in lst:
                 lst.append(iid)
         elif phase == "fin":
             alive.pop(iid, None)
-    older_cancelled = 0
     for tick, iids in exec_in_tick.items():
         for i in range(len(iids)):
             for j in range(i + 1, len(iids)):
@@ -213,12 +237,12 @@ def check_case(case, res: Result):
                     both_new = a not in alive_at_tick_start[tick] and b not in alive_at_tick_start[tick]
                     mech = "C11.two_requests_in_one_tick_both_execute" if both_new else \
                         "C11.older_instance_executes_in_tick_of_replacement"
-                    viol.append((mech, f"tick {tick}: instances {a[:8]} ({name_of[a]}) and {b[:8]} ({name_of[b]}) both "
-                                 f"have an exec call in this tick"))
-    # older instance cancelled by a newer conflicting request: fin of O in the tick of N's init, O not complete
+                    V(mech, f"tick {tick}: instances {a[:8]} ({name_of[a]}) and {b[:8]} ({name_of[b]}) both "
+                      f"have an exec call in this tick", [a, b])
+    # older instance cancelled by a newer conflicting request: fin of O in the tick of N's init, O alive before
+    older_cancelled = 0
     for iid in order:
-        evs = per[iid]
-        t_init = evs[0][0]
+        t_init = per[iid][0][0]
         for o in order:
             if o == iid or not conflicts(name_of[o], name_of[iid]):
                 continue
@@ -228,26 +252,23 @@ def check_case(case, res: Result):
     res.count("conflicts_older_cancelled", older_cancelled)
 
     # (3) quiescence
-    judged_quiescence = False
-    if end_state == "Stopped" and stop_ticks:
-        judged_quiescence = True
+    def fin_tick(iid):
+        return next((e[0] for e in per[iid] if e[1] == "fin"), None)
+    for st in stop_ticks:
         res.count("quiescence_checks")
         for iid in order:
-            if per[iid][-1][1] != "fin":
-                viol.append((_classify_leak(per, iid, stop_ticks, log),
-                             f"run stopped (tick {stop_ticks[-1]}) but instance {iid[:8]} of {name_of[iid]} (init tick "
-                             f"{per[iid][0][0]}, last callback tick {per[iid][-1][0]}) was never finalized; "
-                             f"uod.command_instances={leftover}"))
-    elif end_tick < 170:
-        judged_quiescence = True
+            if per[iid][0][0] <= st and (fin_tick(iid) is None or fin_tick(iid) > st):
+                V(_classify_leak(per, iid, st), f"Stop completed at tick {st} but instance {iid[:8]} of {name_of[iid]} "
+                  f"(init tick {per[iid][0][0]}, last callback {per[iid][-1][1]} at tick {per[iid][-1][0]}) was not "
+                  f"finalized by then; uod.command_instances at end={leftover}", [iid])
+    if end_tick < 170:
         res.count("quiescence_checks")
         for iid in order:
-            if per[iid][-1][1] != "fin" and end_tick - per[iid][-1][0] >= 30:
-                viol.append((_classify_leak(per, iid, stop_ticks, log),
-                             f"instance {iid[:8]} of {name_of[iid]} (init tick {per[iid][0][0]}) had no callback for "
-                             f"{end_tick - per[iid][-1][0]} ticks and was never finalized; "
-                             f"uod.command_instances={leftover}"))
-    if not judged_quiescence:
+            if fin_tick(iid) is None and end_tick - per[iid][-1][0] >= 30 and not any(per[iid][0][0] <= st for st in stop_ticks):
+                V("C11.instance_never_finalized", f"instance {iid[:8]} of {name_of[iid]} (init tick {per[iid][0][0]}) had "
+                  f"no callback for {end_tick - per[iid][-1][0]} ticks and was never finalized; "
+                  f"uod.command_instances={leftover}", [iid])
+    else:
         res.count("runs_not_quiescent_at_cap")
 
     kinds = sorted({s[1] + ":" + str(s[2]).split("\n")[0] for s in sched})
@@ -255,8 +276,44 @@ def check_case(case, res: Result):
     res.case((shape_hash(case["text"]), kinds) if interesting else None,
              sample={"method": case["text"], "sched": case["sched"], "long_n": case["long_n"], "instances": len(order),
                      "conflicts": conflict_seen, "ticks": end_tick})
+    # ---- narrow classifiers
+    # (a) two or more mutually conflicting requests were dequeued by the same command-manager tick. The newest is
+    #     executed first, cancels "by name" (hitting the instance of a third, older request or nothing at all) and is
+    #     then itself cancelled by the older request of the same tick, which re-creates an instance under its own id.
+    burst: dict[int, set] = {}          # tick -> instance ids tainted by such a burst (requests + older live ones)
+    by_tick: dict[int, list] = {}
+    for q in reqs:
+        by_tick.setdefault(q[0], []).append(q)
+    for t, qs in by_tick.items():
+        grp = [q for q in qs if any(o is not q and conflicts(o[1], q[1]) for o in qs)]
+        if len(grp) >= 2:
+            tainted = {q[2] for q in grp}
+            tainted |= {o for o in alive_at_tick_start.get(t, ()) if any(conflicts(name_of[o], q[1]) for q in grp)}
+            burst[t] = tainted
+    n_burst = len(burst)
+    res.count("same_tick_conflicting_request_bursts", n_burst)
+
+    def in_burst(involved):
+        return any(i in ids for ids in burst.values() for i in involved)
+
     seen = set()
-    for mech, msg in viol:
+    unjudged = bool(user_iids & set(order))
+    for mech, msg, involved in raw:
+        if unjudged:
+            # runs containing UOD commands issued through execute_control_command_from_user are outside the
+            # statement's quantifier (methods and injected code); anomalies there are counted, not judged
+            res.count("unjudged_anomalies_in_runs_with_user_issued_uod_commands")
+            if any(i in user_cancel_failed for i in involved):
+                res.count("unjudged_user_issued_command_cancel_aborted_before_finalize")
+            continue
+        if in_burst(involved):
+            mech = "C11.conflicting_requests_in_one_tick"
+        elif any(i in cancel_aborted for i in involved):
+            # (b) CommandManager._cancel_command called cmd.cancel() on the instance, then Tracking.mark_cancelled raised
+            #     because the AST node refused node.cancel() (its cancel flag was already set by an earlier cancel of
+            #     another instance of the same line); the finalize step was skipped, the newer request then finalizes
+            #     the old instance in its own name and is dropped, and the old request re-creates itself
+            mech = "C11.cancel_aborted_before_finalize_node_refused_cancel"
         if (mech, msg) in seen:
             continue
         seen.add((mech, msg))
@@ -274,17 +331,12 @@ def _live(cmdlog) -> list[str]:
     return alive
 
 
-def _classify_overlap(per, older, newer):
-    return "C11.older_conflicting_instance_not_cancelled"
-
-
-def _classify_leak(per, iid, stop_ticks, log):
-    """An instance initialised in the very tick in which a Stop/Restart performed its cancel phase (the tick before
-    System State became Stopped), i.e. its request sat behind the Stop request in the executing list."""
-    t_init = per[iid][0][0]
-    if any(t_init == st - 1 for st in stop_ticks):
+def _classify_leak(per, iid, stop_tick):
+    """An instance initialised in the very tick in which the Stop/Restart performed its cancel phase (the tick before
+    System State became Stopped), i.e. a request that sat behind the Stop request in the executing list."""
+    if per[iid][0][0] == stop_tick - 1:
         return "C11.command_started_in_stop_cancel_tick_never_finalized"
-    return "C11.instance_never_finalized"
+    return "C11.instance_alive_after_stop"
 
 
 def run_shard(spec):
